@@ -183,16 +183,6 @@ pub fn config_grid() -> Vec<Cfg> {
             ("sst-minimum-file-size", "4096"),
         ],
     ));
-    // K: a small open-file budget (a compaction with as many inputs as the budget is refused)
-    rows.push(Cfg::new(
-        "K-openfiles4",
-        &[
-            ("memtable-size-bytes", "0"),
-            ("l0-mandatory-compaction-threshold-files", "2"),
-            ("l0-write-stall-threshold-files", "3"),
-            ("max-open-files", "4"),
-        ],
-    ));
     // J: level 0 stalls and becomes mandatory by bytes, not by file count
     rows.push(Cfg::new(
         "J-stallbytes",
